@@ -1074,7 +1074,9 @@ def _norm_key(k):
 def _rename_pairs(m, acc):
     """every (name, key) pair a dict mapper (with its `._mapper` entries) writes"""
     if isinstance(m, dict):
-        for k, v in (m.get("d") or m).items() if ("style" in m or "d" in m) else m.items():
+        if "style" in m:                       # the case's wrapper {"style": ..., "d": {...}}; a converter has no "d"
+            m = m.get("d") if isinstance(m.get("d"), dict) else {}
+        for k, v in m.items():
             if isinstance(v, str):
                 acc.add((k, v))
             elif isinstance(v, dict):
